@@ -24,8 +24,18 @@ equal to the hand-written model (Props/C08.v: C08_source_*).
   add_connector_loss                template CONN; TRANSLATED: both defaults, the test for the EOL margin, the margin
   add_fiber_padding                 template PAD and translator TrP of harness/pygen_c09.py (not duplicated here);
                                     TRANSLATED: the padding test, the new att_in, the increment
+  prev_node_generator / next_node_generator
+                                    templates GENP / GENN and translator of harness/pygen_c09.py; TRANSLATED: the condition
+                                    under which two neighbours belong to one span (the model's `brk`)
   get_next_node / get_previous_node / get_oms_edge_list / get_oms_edge_list_from_egress / check_oms_single_type
                                     templates only (the walk stops at a ROADM or a transceiver; what counts as an amplifier)
+  worker_utils.designed_network     the entry point of the tools: `if not no_insert_edfas: add_missing_elements_in_network(network,
+                                    equipment)` is the only use of the option, and design_network is called exactly once with
+                                    (reference_channel, network, equipment, set_connector_losses=True, verbose=True)
+  design_network / build_network    templates DESIGN / BUILD: design_network hands its arguments to build_network; build_network
+                                    runs add_missing_fiber_attributes first (iff set_connector_losses), then the ROADM targets /
+                                    design bands, set_egress_amplifier for ROADMs and transceivers, the ROADM input powers and
+                                    internal paths, set_fiber_input_power for every fibre
 Anything outside the subset raises Unsupported (fail closed).  Numbers: lengths / losses are Q (every float its exact
 value), span counts and the Span bounds are Z; a Z inside a Q expression is injected with qz.
 """
@@ -387,6 +397,71 @@ if len(types) > 1:
 return list(types)
 """
 
+DESIGN = """
+if verbose:
+    H_LOG
+build_network(network, equipment, reference_channel, set_connector_losses=set_connector_losses,
+              verbose=verbose)
+"""
+
+BUILD = """
+roadms = [r for r in network.nodes() if isinstance(r, elements.Roadm)]
+transceivers = [t for t in network.nodes() if isinstance(t, elements.Transceiver)]
+if set_connector_losses:
+    add_missing_fiber_attributes(network, equipment)
+for roadm in roadms:
+    set_roadm_ref_carrier(roadm, equipment)
+    set_roadm_per_degree_targets(roadm, network)
+    set_per_degree_design_band(roadm, network, equipment)
+for transceiver in transceivers:
+    set_per_degree_design_band(transceiver, network, equipment)
+pref_ch_db = watt2dbm(reference_channel.power)
+for roadm in roadms + transceivers:
+    set_egress_amplifier(network, roadm, equipment, pref_ch_db, verbose, reference_channel)
+for roadm in roadms:
+    set_roadm_input_powers(network, roadm, equipment, pref_ch_db)
+    set_roadm_internal_paths(roadm, network)
+for fiber in [f for f in network.nodes() if isinstance(f, (elements.Fiber, elements.RamanFiber))]:
+    set_fiber_input_power(network, fiber, equipment, pref_ch_db)
+"""
+
+WORKER = 'gnpy/tools/worker_utils.py'
+ENTRY_INSERT = """
+if not no_insert_edfas:
+    add_missing_elements_in_network(network, equipment)
+"""
+ENTRY_DESIGN = "design_network(reference_channel, network, equipment, set_connector_losses=True, verbose=True)"
+
+
+def entry_point(repo):
+    """designed_network: the option no_insert_edfas only guards add_missing_elements_in_network; design_network is called
+    once, unconditionally, with connector losses on"""
+    wk = ast.parse(open(os.path.join(repo, WORKER)).read())
+    fn = find(wk, 'designed_network')
+    names = [a.arg for a in fn.args.args]
+    if names[:2] != ['equipment', 'network'] or 'no_insert_edfas' not in names:
+        raise Unsupported('signature of designed_network')
+    dflt = dict(zip(names[len(names) - len(fn.args.defaults):], fn.args.defaults))
+    if not (isinstance(dflt.get('no_insert_edfas'), ast.Constant) and dflt['no_insert_edfas'].value is False):
+        raise Unsupported('designed_network: default of no_insert_edfas')
+    body = strip_doc(fn.body)
+    want = ast.parse(ENTRY_INSERT).body[0]
+    if sum(1 for st in body if ast.dump(st) == ast.dump(want)) != 1:
+        raise Unsupported('designed_network: `if not no_insert_edfas: add_missing_elements_in_network(network, equipment)`')
+    uses = [n for n in ast.walk(fn) if isinstance(n, ast.Name) and n.id == 'no_insert_edfas']
+    if len(uses) != 1:
+        raise Unsupported('designed_network: no_insert_edfas is used for something else than guarding the insertion')
+    calls = [n for n in ast.walk(fn) if isinstance(n, ast.Call) and isinstance(n.func, ast.Name) and n.func.id == 'design_network']
+    want = ast.parse(ENTRY_DESIGN).body[0]
+    if len(calls) != 1 or sum(1 for st in body if ast.dump(st) == ast.dump(want)) != 1:
+        raise Unsupported(f'designed_network: the call `{ENTRY_DESIGN}` (once, at top level)')
+    for st in body:
+        if ast.dump(st) == ast.dump(want):
+            break
+        if any(isinstance(n, ast.Return) for n in ast.walk(st)):
+            raise Unsupported('designed_network: a return before design_network')
+
+
 HEADER = """(* GENERATED on every run by harness/pygen_c08.py from gnpy/core/network.py of /repo - do not edit. *)
 From Coq Require Import QArith Qround.
 From Verif Require Import Prelude Model.Chain.
@@ -404,6 +479,7 @@ Definition isinst (k cls : nkind) : bool :=
 Definition qdivz (x : Q) (n : Z) : res Q :=
   if n =? 0 then Err "ZeroDivisionError:calculate_new_length" else Ok (x / qz n)%Q.
 Definition qltb (x y : Q) : bool := Qltb x y.
+Definition is_ff (e : elem) : bool := is_fib e || is_fus e.     (* isinstance(_, (Fused, Fiber)) *)
 """
 
 
@@ -542,6 +618,34 @@ Definition g_conn_out (c : cfg) (con_out : option Q) (k : nkind) : Q :=
     out.append(f'Definition g_pad_needed (padding sl : Q) : bool := {tp.b(b["H_cond"])}.')
     out.append(f'Definition g_pad_att (att padding sl : Q) : Q := {tp.e(b["H_att"])}%Q.')
     out.append(f'Definition g_pad_incr (padding sl : Q) : Q := {tp.e(b["H_dsl"])}%Q.\n')
+
+    # ---- what makes a span: prev_node_generator / next_node_generator (templates and translator of the C09 tie)
+    from .pygen_c09 import GENP, GENN, FF_TYPES
+    ff = [x for x in net.body if isinstance(x, ast.Assign) and len(x.targets) == 1 and isinstance(x.targets[0], ast.Name)
+          and x.targets[0].id == '_fiber_fused_types']
+    if len(ff) != 1 or ast.dump(ff[0].value) != ast.dump(ast.parse(FF_TYPES, mode='eval').body):
+        raise Unsupported('_fiber_fused_types is no longer ' + FF_TYPES)
+    bp = match_template(GENP, strip_doc(find(net, 'prev_node_generator').body), 'prev_node_generator')
+    bn = match_template(GENN, strip_doc(find(net, 'next_node_generator').body), 'next_node_generator')
+    out.append('(* network.prev_node_generator / next_node_generator (templates GENP / GENN of harness/pygen_c09.py): when the '
+               'walk steps from n to its neighbour p, i.e. when both belong to one span *)')
+    out.append(f'Definition g_prev_link (p n : elem) : bool := {tp.b(bp["H_link"])}.')
+    out.append(f'Definition g_next_link (p n : elem) : bool := {tp.b(bn["H_link"])}.\n')
+
+    # ---- the entry point and the sequence of design steps
+    entry_point(repo)
+    fn = find(net, 'design_network')
+    if [a.arg for a in fn.args.args] != ['reference_channel', 'network', 'equipment', 'set_connector_losses', 'verbose']:
+        raise Unsupported('signature of design_network')
+    match_template(DESIGN, strip_doc(fn.body), 'design_network')
+    fn = find(net, 'build_network')
+    if [a.arg for a in fn.args.args] != ['network', 'equipment', 'reference_channel', 'set_connector_losses', 'verbose']:
+        raise Unsupported('signature of build_network')
+    match_template(BUILD, strip_doc(fn.body), 'build_network')
+    out.append('(* tools.worker_utils.designed_network: no_insert_edfas only guards add_missing_elements_in_network, '
+               'design_network(.., set_connector_losses=True, ..) is called unconditionally; network.design_network / '
+               'build_network match their templates (add_missing_fiber_attributes first) - Model.Chain.design_line_opt *)')
+    out.append('Definition g_entry_point_matched : bool := true.\n')
 
     # ---- walks
     for name, tmpl in (('get_next_node', NEXT), ('get_previous_node', PREV), ('get_oms_edge_list', OMS_FWD),
